@@ -1,6 +1,6 @@
 //! C01 — archive lookup finds every stored game path, and only stored paths.
 
-use super::archive::{build_install, hash_keys, lookup, payload_for, EntrySpec, IndexKind, InstallSpec, PackSpec, RepoSpec, Stray, GAME};
+use super::archive::{build_install, take_apart_into_patch, hash_keys, lookup, payload_for, EntrySpec, IndexKind, InstallSpec, PackSpec, RepoSpec, Stray, GAME};
 use super::{draw_cfg_benign, Body, Doc};
 use crate::formats::sqpack::{category_id, CATEGORIES};
 use crate::harness::{Cfg, Harness, RunResult, Tier};
@@ -29,9 +29,13 @@ pub struct Query {
 pub struct C01Doc {
     pub install: InstallSpec,
     pub queries: Vec<Query>,
+    /// the index and dat files are put in place by applying a patch (A, H and F commands) instead
+    /// of being written directly: the names the patcher writes are the names the reader opens
+    #[serde(default)]
+    pub via_patch: bool,
 }
 
-pub const PROBES: [&str; 22] = [
+pub const PROBES: [&str; 23] = [
     "hit_in_expansion_repository",
     "hit_index2_only_file",
     "hit_only_in_index2_while_index_exists",
@@ -54,6 +58,7 @@ pub const PROBES: [&str; 22] = [
     "second_half_of_index2_table",
     "more_than_32_index_files_loaded_on_one_handle",
     "hit_in_entry_table_not_in_ascending_key_order",
+    "hit_in_install_put_in_place_by_a_patch",
 ];
 
 pub fn platform_of(p: u8) -> Platform {
@@ -339,7 +344,9 @@ pub fn generate(seed: u64, tier: Tier) -> Doc {
             cfg = Cfg::Hostile;
         }
     }
-    Doc { prop: "C01".into(), seed, cfg, benign, io_faults, body: Body::C01(C01Doc { install, queries }) }
+    // one install in five (patches know three platforms) is put in place by applying a patch
+    let via_patch = install.platform <= 2 && r.chance(1, 5);
+    Doc { prop: "C01".into(), seed, cfg, benign, io_faults, body: Body::C01(C01Doc { install, queries, via_patch }) }
 }
 
 pub fn directed() -> Vec<Doc> {
@@ -439,7 +446,7 @@ pub fn directed() -> Vec<Doc> {
             cfg,
             benign,
             io_faults: faults,
-            body: Body::C01(C01Doc { install: install.clone(), queries: queries.clone() }),
+            body: Body::C01(C01Doc { install: install.clone(), queries: queries.clone(), via_patch: false }),
         });
     }
     // one read of the first index load fails, at every depth of that load; the query it hits may
@@ -459,7 +466,7 @@ pub fn directed() -> Vec<Doc> {
                 cfg: Cfg::Hostile,
                 benign: Benign::quiet(),
                 io_faults: vec![IoFault { op: 0, call: Call::Read, nth, kind, sticky: false, path_contains: Some(".index".into()) }],
-                body: Body::C01(C01Doc { install: install.clone(), queries: queries.clone() }),
+                body: Body::C01(C01Doc { install: install.clone(), queries: queries.clone(), via_patch: false }),
             });
             idx += 1;
         }
@@ -474,15 +481,33 @@ pub fn directed() -> Vec<Doc> {
             cfg: Cfg::Quiet,
             benign: Benign::quiet(),
             io_faults: vec![],
-            body: Body::C01(C01Doc { install: inst, queries: queries.clone() }),
+            body: Body::C01(C01Doc { install: inst, queries: queries.clone(), via_patch: false }),
         });
         idx += 1;
     }
+    // the same install put in place by a patch, applied quietly, in short and interrupted pieces,
+    // and one byte per call
+    for benign in [
+        Benign::quiet(),
+        Benign { short_read: 100, eintr_read: 50, short_write: 100, eintr_write: 50, one_byte_reads: false, one_byte_writes: false, permute_dirs: true },
+        Benign { one_byte_reads: true, one_byte_writes: true, ..Benign::quiet() },
+    ] {
+        out.push(Doc {
+            prop: "C01".into(),
+            seed: 0xD1EC7ED0 + idx,
+            cfg: if benign.is_quiet() { Cfg::Quiet } else { Cfg::Benign },
+            benign,
+            io_faults: vec![],
+            body: Body::C01(C01Doc { install: install.clone(), queries: queries.clone(), via_patch: true }),
+        });
+        idx += 1;
+    }
+    let _ = idx;
     out
 }
 
 fn shape_hash(b: &C01Doc) -> u64 {
-    let mut h = fnv1a(FNV_INIT, &[b.install.platform, b.install.table_order]);
+    let mut h = fnv1a(FNV_INIT, &[b.install.platform, b.install.table_order, b.via_patch as u8]);
     for r in &b.install.repos {
         h = fnv1a(h, &[r.exp, r.packs.len() as u8]);
         for p in &r.packs {
@@ -499,9 +524,55 @@ fn shape_hash(b: &C01Doc) -> u64 {
 pub fn run(doc: &Doc, body: &C01Doc, trace: bool) -> RunResult {
     let mut h = Harness::new("C01", doc.seed, PROBES.len(), trace);
     let inst = build_install(&h.fs, &body.install);
+    let rebuilt = if body.via_patch {
+        let (chunks, expect) = take_apart_into_patch(&h.fs, &body.install, doc.seed);
+        h.fs.h_mkdirs("/w/p");
+        let enc = crate::formats::zipatch::encode_patch(&chunks);
+        let plen = enc.bytes.len() as u64;
+        h.fs.h_write("/w/p/install.patch", enc.bytes);
+        Some((expect, plen))
+    } else {
+        None
+    };
     h.set_policy(&doc.benign, &doc.io_faults);
     if body.install.platform != 0 {
         h.probe(14);
+    }
+    if let Some((expect, plen)) = rebuilt {
+        let r = h.op(999, "ZiPatch::apply", plen + inst.bytes, || physis::patch::ZiPatch::apply(GAME, "/w/p/install.patch")).done();
+        match r {
+            Some(Ok(())) => {}
+            Some(Err(e)) => h.violate(
+                &format!("patch-built|apply-err|{:?}", e),
+                format!("the patch that puts the index and dat files in place failed with {:?}", e),
+            ),
+            None => {}
+        }
+        if h.failed() {
+            return h.finish(doc.cfg, shape_hash(body));
+        }
+        h.fs.pause_trace(true);
+        for (p, want) in &expect {
+            match h.fs.h_read(p) {
+                Some(got) if got == *want => {}
+                Some(got) => {
+                    let at = got.iter().zip(want.iter()).position(|(a, b)| a != b).unwrap_or(got.len().min(want.len()));
+                    h.violate(
+                        "patch-built|file-differs",
+                        format!("{} differs from what the patch carried for it (first difference at byte {}, {} vs {} bytes)", p, at, got.len(), want.len()),
+                    );
+                    break;
+                }
+                None => {
+                    h.violate("patch-built|file-missing", format!("{} does not exist after the patch that carries it was applied", p));
+                    break;
+                }
+            }
+        }
+        h.fs.pause_trace(false);
+        if h.failed() {
+            return h.finish(doc.cfg, shape_hash(body));
+        }
     }
     let game = h
         .op(1000, "GameData::from_existing", inst.bytes, || GameData::from_existing(platform_of(body.install.platform), GAME))
@@ -559,6 +630,9 @@ pub fn run(doc: &Doc, body: &C01Doc, trace: bool) -> RunResult {
             }
             if body.install.table_order != 0 {
                 h.probe(21);
+            }
+            if body.via_patch {
+                h.probe(22);
             }
             let lower = q.path.to_ascii_lowercase();
             let stored_exact = body
@@ -820,6 +894,11 @@ pub fn shrink(b: &C01Doc) -> Vec<C01Doc> {
     if b.install.table_order != 0 {
         let mut n = b.clone();
         n.install.table_order = 0;
+        out.push(n);
+    }
+    if b.via_patch {
+        let mut n = b.clone();
+        n.via_patch = false;
         out.push(n);
     }
     if b.install.secondary_segments {
